@@ -111,6 +111,7 @@ INTERFACE_SET_COLON_COUNT = 3  # Format: transitive:direction:asn:route_target
 # Traffic rate limiting constants
 MIN_RATE_LIMIT_BPS = 9600  # Minimum rate limit in bytes per second
 MAX_RATE_LIMIT_BPS = 1000000000000  # Maximum rate limit (1 terabyte/s)
+MAX_RATE_LIMIT_FLOAT = 3.4028234663852886e38  # largest IEEE 754 single precision value
 
 # DSCP (Differentiated Services Code Point) value range
 DSCP_MAX_VALUE = 0b111111  # DSCP is a 6-bit field (0-63)
@@ -377,7 +378,14 @@ def rate_limit(tokeniser: 'Tokeniser') -> ExtendedCommunities:
     else:
         unit = 'bytes'
 
+    if speed < 0:
+        # RFC 8955 7.1: the rate is never negative on encoding
+        raise ValueError(f'rate-limit {speed} is negative')
+
     if unit == 'packets':
+        if speed > MAX_RATE_LIMIT_FLOAT:
+            # an IEEE single on the wire: beyond its range struct.pack raised OverflowError
+            raise ValueError(f'rate-limit {speed} packets is too large')
         return ExtendedCommunities().add(TrafficRatePackets.make_traffic_rate_packets(ASN(0), speed))
 
     if speed < MIN_RATE_LIMIT_BPS and speed != 0:
@@ -428,7 +436,7 @@ def redirect(tokeniser: 'Tokeniser') -> tuple[IP, ExtendedCommunities]:
         ip_str, nn = data.split(']:')
         ip_str = ip_str.replace('[', '', 1)
 
-        if int(nn) >= pow(2, LOCAL_ADMIN_16_BITS):
+        if not 0 <= int(nn) < pow(2, LOCAL_ADMIN_16_BITS):
             raise ValueError('Local administrator field is a 16 bits number, value too large {}'.format(nn))
         return IP.from_string(ip_str), ExtendedCommunities().add(
             TrafficRedirectIPv6.make_traffic_redirect_ipv6(ip_str, int(nn))
@@ -447,6 +455,10 @@ def redirect(tokeniser: 'Tokeniser') -> tuple[IP, ExtendedCommunities]:
 
         asn: int = int(prefix)
         nn_int: int = int(suffix)
+
+        if nn_int < 0:
+            # only the upper bound was checked: 65000:-1 reached struct.pack
+            raise ValueError('Local administrator field can not be negative {}'.format(nn_int))
 
         if not ASN4.validate(asn):
             raise ValueError(f'asn is invalid, must be 0 to {ASN.MAX_4BYTE} (32 bits): {asn}')
